@@ -1037,3 +1037,101 @@ func condSource(v ssa.Value, seen map[ssa.Value]bool, depth int) []string {
 	}
 	return nil
 }
+
+// ---------------------------------------------------------------------------------------
+// F8o: the size of an encoding is the sum of its parts, each once
+// ---------------------------------------------------------------------------------------
+
+func ruleF8o(c *Ctx) {
+	c.doc("F8o", "Encoding.GetOutputSize (the table part of every pass-1 size) adds the size of each component of the encoding that is present exactly once — REX, VEX, opcode bytes, ModR/M, immediate (table width, or the width pass 1 supplies), data offset, code offset — and no constant; ModR/M counts 1")
+	f := c.L.SSAFunc("pkg/asmdb", "(*Encoding).GetOutputSize")
+	if f == nil {
+		c.anchorMissing("F8o", "pkg/asmdb.(*Encoding).GetOutputSize")
+		return
+	}
+	terms := map[string]int{}
+	var unknown []string
+	for _, b := range f.Blocks {
+		for _, in := range b.Instrs {
+			bo, ok := in.(*ssa.BinOp)
+			if !ok || bo.Op != token.ADD || !isIntType(bo.Type()) {
+				continue
+			}
+			// accumulator + term: the accumulator is a phi / earlier sum / const 0
+			t := componentOf(bo.Y, 0)
+			if t == "" {
+				t = componentOf(bo.X, 0)
+			}
+			if t == "" {
+				unknown = append(unknown, valName(bo.Y))
+				continue
+			}
+			terms[t]++
+		}
+	}
+	want := []string{"Rex", "Vex", "Opcode", "Modrm", "Immediate", "DataOffset", "CodeOffset"}
+	for _, w := range want {
+		c.check(terms[w] == 1, "F8o", "GetOutputSize|adds "+w+" once", c.L.Pos(f.Pos()), fmt.Sprintf("the size of the %s component is added %d time(s)", w, terms[w]))
+		delete(terms, w)
+	}
+	var extra []string
+	for k := range terms {
+		extra = append(extra, k)
+	}
+	sort.Strings(extra)
+	c.check(len(extra) == 0 && len(unknown) == 0, "F8o", "GetOutputSize|nothing else added", c.L.Pos(f.Pos()), fmt.Sprintf("other terms: %v %v", extra, unknown))
+	if m := c.L.SSAFunc("pkg/asmdb", "(*Modrm).getSize"); m == nil {
+		c.anchorMissing("F8o", "pkg/asmdb.(*Modrm).getSize")
+	} else {
+		one := true
+		for _, b := range m.Blocks {
+			for _, in := range b.Instrs {
+				if r, ok := in.(*ssa.Return); ok {
+					k, isK := r.Results[0].(*ssa.Const)
+					if !isK || !isIntConst(k) || k.Int64() != 1 {
+						one = false
+					}
+				}
+			}
+		}
+		c.check(one, "F8o", "(*Modrm).getSize|is 1", c.L.Pos(m.Pos()), "a ModR/M byte is one byte")
+	}
+}
+
+// componentOf: which component of the encoding a size term comes from ("" if none): a call of
+// T.getSize, a load of T.Size, or a phi of such loads and the ImmSize option.
+func componentOf(v ssa.Value, depth int) string {
+	if depth > 5 {
+		return ""
+	}
+	switch x := v.(type) {
+	case *ssa.Call:
+		if callee := x.Call.StaticCallee(); callee != nil && callee.Name() == "getSize" && callee.Signature.Recv() != nil {
+			n, _ := namedOf(callee.Signature.Recv().Type())
+			return n
+		}
+	case *ssa.UnOp:
+		if x.Op == token.MUL {
+			if fa, ok := x.X.(*ssa.FieldAddr); ok {
+				if fieldName(fa) == "Size" {
+					n, _ := namedOf(fa.X.Type())
+					return n
+				}
+				if fieldName(fa) == "ImmSize" {
+					return "Immediate"
+				}
+			}
+		}
+	case *ssa.Phi:
+		out := ""
+		for _, e := range x.Edges {
+			t := componentOf(e, depth+1)
+			if t == "" || (out != "" && t != out) {
+				return ""
+			}
+			out = t
+		}
+		return out
+	}
+	return ""
+}
